@@ -103,8 +103,8 @@ impl BBSplusPoKSignature {
     ///
     /// * `Result<Self, Error>` - A result containing the deserialized `BBSplusPoKSignature` or an error.
     pub fn from_bytes(bytes: &[u8]) -> Result<Self, Error> {
-        // 3 points and 3 scalars precede the variable part
-        if bytes.len() < 240 {
+        // 3 points and 3 scalars precede the variable part, which is a whole number of scalars
+        if bytes.len() < 240 || (bytes.len() - 240) % 32 != 0 {
             return Err(Error::InvalidProofOfKnowledgeSignature);
         }
         let Abar = parse_g1_projective(&bytes[0..48])
@@ -1003,7 +1003,7 @@ impl BBSplusZKPoK {
     /// # Output
     /// * A Result containing the `BBSplusZKPoK` or an Error.
     pub fn from_bytes(bytes: &[u8]) -> Result<Self, Error> {
-        if bytes.len() < 32 {
+        if bytes.len() < 32 || bytes.len() % 32 != 0 {
             return Err(Error::InvalidProofOfKnowledgeSignature);
         }
         let s_cap = Scalar::from_bytes_be(
